@@ -1,6 +1,6 @@
 import Tmv.Drv.Core
 import Tmv.Sha256
-import Tmv.Model.ValidateCommit
+import Tmv.Model.ValidateFull
 /-! Line-protocol driver for C06 (block validation / MakeBlock / size budget / updateState). -/
 namespace Tmv.Drv.C06
 open Tmv Tmv.ProtoSize Tmv.Validate
@@ -82,11 +82,34 @@ def parseCommit (s : String) : Option (Option Commit) :=
                  sigs := ← parseSigs sg })
   | _ => none
 
-/-- `kind:inner:basic,...` -/
-def parseEvs (s : String) : Option (List Ev) :=
+/-- a vote of duplicate-vote evidence `h/r/type/addr/bid/ts/idx/sig` in C11's terms; heights are
+taken relative to the chain's initial height (C11's chain starts at height 1); `bid` is a number
+identifying the block id, `sig` starts with `ok` iff the real ed25519 accepts the vote's signature
+under the key of the validator with that address at that height -/
+def parseVote (ih : Int) (s : String) : Option Evidence.Vote :=
+  match s.splitOn "/" with
+  | [h, r, t, addr, bid, ts, idx, sig] => do
+    pure { height := (← h.toInt?) - ih + 1, round := ← r.toInt?, typ := ← t.toInt?, addr := addr,
+           bid := ← bid.toInt?, ts := ← ts.toInt?, idx := ← idx.toInt?, sig := sig }
+  | _ => none
+
+/-- `voteA~voteB~totalVotingPower~validatorPower~time` -/
+def parseDV (ih : Int) (s : String) : Option Evidence.Ev :=
+  match s.splitOn "~" with
+  | [a, b, tvp, vp, tm] => do
+    pure (.dv { a := ← parseVote ih a, b := ← parseVote ih b, tvp := ← tvp.toInt?, vp := ← vp.toInt?,
+                time := ← tm.toInt? })
+  | _ => none
+
+/-- `kind:inner:basic[:dv],...`: the item as the block carries it (opaque bytes), and its reading
+as C11's structured evidence -/
+def parseEvsX (ih : Int) (s : String) : Option (List (Ev × Option Evidence.Ev)) :=
   (splitComma s).mapM fun e =>
     match e.splitOn ":" with
-    | [k, i, b] => do pure { kind := ← k.toNat?, inner := ← ofHex i, basic := b = "1" }
+    | [k, i, b] => do pure ({ kind := ← k.toNat?, inner := ← ofHex i, basic := b = "1" }, none)
+    | [k, i, b, d] => do
+      let m : Ev := { kind := ← k.toNat?, inner := ← ofHex i, basic := b = "1" }
+      if d = "-" then pure (m, none) else pure (m, some (← parseDV ih d))
     | _ => none
 
 def parseHeader (t : List String) : Option Header := do
@@ -109,7 +132,7 @@ def showHeader (h : Header) : String :=
 
 def parseBlock (t : List String) : Option Block := do
   pure { header := ← parseHeader t, txs := ← hexList (← kv t "txs"),
-         evidence := ← parseEvs (← kv t "ev"), lastCommit := ← parseCommit (← kv t "lc") }
+         evidence := (← parseEvsX 1 (← kv t "ev")).map (·.1), lastCommit := ← parseCommit (← kv t "lc") }
 
 def showErr : Err → String
   | .hdrVersionBlock => "e-hdr-version-block" | .hdrChainIDLen => "e-hdr-chainid-len"
@@ -146,26 +169,77 @@ def validTriples (st : State) (c : Commit) (bits : String) : List (Nat × Int ×
     | some s, some v, some '1' => some (keyId v.pubKey, s.ts, s.sig)
     | _, _, _ => none
 
-/-- environment for one op: `VerifyCommit` is C07's model; the signature predicate and the
-evidence pool's answer come with the op line -/
-def envOf (t : List String) (st : State) (c : Option Commit) : Env :=
-  let adm := (kv t "evadm").getD "1"
-  let tr := match c with
-    | some c => validTriples st c ((kv t "sigok").getD "")
-    | none => []
-  cvEnv Hs (fun k sb s => tr.contains (k, sb.ts, s)) (fun _ _ => adm = "1")
+structure EvDef where
+  mine : Ev
+  c11 : Evidence.Ev
+  hash : Nat
 
 structure S where
   st : Option State := none
   blk : Option Block := none
+  ih : Int := 1
+  ageB : Int := 0
+  ageD : Int := 0
+  chain : String := ""
+  blocks : List Evidence.Block := []
+  sys : Option Evidence.Sys := none
+  defs : List EvDef := []
 
-def blockLine (env : Env) (st : State) (b : Block) : String :=
+def dummyVote : Evidence.Vote := { height := -1, round := 0, typ := 0, addr := "", bid := 0, ts := 0, idx := 0, sig := "" }
+def dummyEv : Evidence.Ev := .dv { a := dummyVote, b := dummyVote, tvp := 0, vp := 0, time := 0 }
+
+/-- C11's context from what the driver has seen of the chain -/
+def ctxOf (s : S) : Evidence.Ctx :=
+  { blocks := s.blocks, maxAgeBlocks := s.ageB, maxAgeDur := s.ageD,
+    H := fun e => match s.defs.find? (fun d => d.c11 = e) with | some d => d.hash | none => 0,
+    S := fun e => match s.defs.find? (fun d => d.c11 = e) with | some d => evWrapSize d.mine | none => 0,
+    sigOK := fun _ v => v.sig.startsWith "ok",
+    chainID := s.chain }
+
+def decodeOf (s : S) (m : Ev) : Evidence.Ev :=
+  match s.defs.find? (fun d => d.mine.inner = m.inner) with
+  | some d => d.c11
+  | none => dummyEv
+
+/-- remember the structured reading of the evidence items of an op line (hash = SHA-256 of the
+inner message, as `DuplicateVoteEvidence.Hash()`) -/
+def register (s : S) (l : List (Ev × Option Evidence.Ev)) : S :=
+  l.foldl (fun s p =>
+    match p.2 with
+    | some c =>
+      if s.defs.any (fun d => d.mine.inner = p.1.inner) then s
+      else { s with defs := ⟨p.1, c, natOfBytes (Hs p.1.inner)⟩ :: s.defs }
+    | none => s) s
+
+def poolEnv (s : S) : PoolEnv :=
+  { ctx := ctxOf s, sys := s.sys.getD (Evidence.initSys (ctxOf s) 0), decode := decodeOf s }
+
+/-- environment for one op: `VerifyCommit` is C07's model (signature verdicts of the real ed25519
+come with the op line), the evidence pool is C11's model on the driver's pool state -/
+def envOf (s : S) (t : List String) (st : State) (c : Option Commit) : Env :=
+  let tr := match c with
+    | some c => validTriples st c ((kv t "sigok").getD "")
+    | none => []
+  fullEnv Hs (fun k sb sg => tr.contains (k, sb.ts, sg)) (poolEnv s)
+
+/-- `ValidateBlock` on the driver's state: verdict and the pool afterwards -/
+def validateOp (s : S) (t : List String) (st : State) (b : Block) : String × S :=
+  let tr := match b.lastCommit with
+    | some c => validTriples st c ((kv t "sigok").getD "")
+    | none => []
+  let r := validateWithPool Hs (fun k sb sg => tr.contains (k, sb.ts, sg)) (poolEnv s) st b
+  (showRes r.1, { s with sys := some r.2 })
+
+def blockLine (st : State) (b : Block) (verdict : String) : String :=
   let lch := match b.lastCommit with | some c => toHex (commitHash Hs c) | none => "nil"
   s!"hh={hexOrDash (headerHash Hs b.header)} size={blockSize b} " ++
   s!"enc={toHex ((Hs (encBlock b)).take 8)} lch={lch} dh={toHex (dataHash Hs b.txs)} " ++
-  s!"eh={toHex (evHash Hs b.evidence)} evsize={evByteSize b.evidence} v={showRes (validateBlock env st b)}" ++
+  s!"eh={toHex (evHash Hs b.evidence)} evsize={evByteSize b.evidence} v={verdict}" ++
   -- the model is one function: a second replica trivially reaches the same verdict
   " rb=same"
+
+def toC11Val (v : Validator) : Evidence.Validator :=
+  { addr := toHex v.addr, power := v.power, pkAddr := toHex v.addr, key := 0 }
 
 /-- the mock mempool of the harness: longest prefix of the pool whose `Data` size fits -/
 def reap : List Bytes → Int → Int → List Bytes
@@ -195,6 +269,13 @@ def parseResults (s : String) : Option (List TxResult) :=
       pure { code := ← c.toNat?, data := ← ofHex d, gasWanted := ← gw.toInt?, gasUsed := ← gu.toInt? }
     | _ => none
 
+/-- `pubkey:power,...` -/
+def parseUpd (s : String) : Option (List ValUpdate) :=
+  (splitComma s).mapM fun e =>
+    match e.splitOn ":" with
+    | [k, p] => do pure (← ofHex k, ← p.toInt?)
+    | _ => none
+
 def setField (st : State) (f v : String) : Option State :=
   match f with
   | "lbh" => do pure { st with lastBlockHeight := ← v.toInt? }
@@ -214,7 +295,10 @@ def step (s : S) (toks : List String) : S × String :=
   match toks with
   | "state" :: t =>
     match parseState t with
-    | some st => ({ s with st := some st, blk := none }, showState st)
+    | some st =>
+      let s0 : S := { st := some st, ih := st.initialHeight, ageB := st.params.evMaxAgeBlocks,
+                      ageD := st.params.evMaxAgeDur, chain := chainStr st.chainID }
+      ({ s0 with sys := some (Evidence.initSys (ctxOf s0) 0) }, showState st)
     | none => (s, "bad-op")
   | "set" :: t =>
     match s.st, kv t "f", kv t "v" with
@@ -224,45 +308,71 @@ def step (s : S) (toks : List String) : S × String :=
       | none => (s, "bad-op")
     | _, _, _ => (s, "bad-op")
   | "block" :: t =>
-    match s.st, parseBlock t with
-    | some st, some b => ({ s with blk := some b }, blockLine (envOf t st b.lastCommit) st b)
+    match s.st, parseBlock t, (kv t "ev").bind (parseEvsX s.ih) with
+    | some st, some b, some evx =>
+      let s := register s evx
+      let (v, s) := validateOp s t st b
+      -- `rc`: the verdict of a node that only applied the chain; one function here
+      ({ s with blk := some b }, blockLine st b v ++ " rc=same")
+    | _, _, _ => (s, "bad-op")
+  | "addev" :: t =>
+    match s.st, (kv t "ev").bind (parseEvsX s.ih) with
+    | some _, some [(m, some c)] =>
+      let s := register s [(m, some c)]
+      let pe := poolEnv s
+      let r := Evidence.step pe.ctx pe.sys (.add (decodeOf s m))
+      ({ s with sys := some r.1 }, if r.2 == .ok then "ok" else "err")
     | _, _ => (s, "bad-op")
   | "make" :: t =>
-    match s.st, (kv t "h").bind String.toInt?, (kv t "txs").bind hexList, (kv t "ev").bind parseEvs,
+    match s.st, (kv t "h").bind String.toInt?, (kv t "txs").bind hexList, (kv t "ev").bind (parseEvsX s.ih),
           (kv t "prop").bind ofHex, (kv t "lc").bind parseCommit with
-    | some st, some h, some txs, some evs, some prop, some (some c) =>
-      let env := envOf t st (some c)
-      let b := makeBlock env st h txs c evs prop
-      ({ s with blk := some b }, showHeader b.header ++ " " ++ blockLine env st b)
+    | some st, some h, some txs, some evx, some prop, some (some c) =>
+      let s := register s evx
+      let b := makeBlock (envOf s t st (some c)) st h txs c (evx.map (·.1)) prop
+      let (v, s) := validateOp s t st b
+      ({ s with blk := some b }, showHeader b.header ++ " " ++ blockLine st b v)
     | _, _, _, _, _, _ => (s, "bad-op")
   | "create" :: t =>
-    match s.st, (kv t "h").bind String.toInt?, (kv t "pool").bind hexList, (kv t "ev").bind parseEvs,
+    match s.st, (kv t "h").bind String.toInt?, (kv t "pool").bind hexList,
           (kv t "prop").bind ofHex, (kv t "lc").bind parseCommit with
-    | some st, some h, some pool, some evs, some prop, some (some c) =>
-      let env := envOf t st (some c)
-      match proposalDataBudget st (evByteSize evs) with
+    | some st, some h, some pool, some prop, some (some c) =>
+      -- `evpool.PendingEvidence(Evidence.MaxBytes)`: C11's model on the driver's pool
+      let pe := poolEnv s
+      let pend := Evidence.pendingEvidence pe.ctx pe.sys.pool st.params.evMaxBytes
+      let evs : List Ev := pend.1.filterMap fun e => (s.defs.find? (fun d => d.c11 = e)).map (·.mine)
+      match proposalDataBudget st (pend.2 : Nat) with
       | none => (s, "maxdata=panic")
       | some budget =>
         let txs := reap pool budget 0
-        let b := makeBlock env st h txs c evs prop
+        let b := makeBlock (envOf s t st (some c)) st h txs c evs prop
+        let (v, s) := validateOp s t st b
         ({ s with blk := some b },
-          s!"maxdata={budget} ntx={txs.length} " ++ blockLine env st b ++
+          s!"maxdata={budget} ntx={txs.length} nev={evs.length} " ++ blockLine st b v ++
           s!" fits={decide ((blockSize b : Int) ≤ st.params.blockMaxBytes)}")
-    | _, _, _, _, _, _ => (s, "bad-op")
+    | _, _, _, _, _ => (s, "bad-op")
   | "apply" :: t =>
     match s.st, s.blk, (kv t "bid").bind parseBID, (kv t "res").bind parseResults,
-          kv t "changed", kv t "nvals", (kv t "pu").bind parsePU, (kv t "apph").bind ofHex with
-    | some st, some b, some bid, some res, some ch, some nvs, some pu, some apph =>
-      let env := envOf t st b.lastCommit
-      let hint : Option ValSet := if nvs = "err" then none else parseVals nvs
-      if nvs ≠ "err" ∧ hint.isNone then (s, "bad-op") else
-      -- the hint is the set after `UpdateWithChangeSet` and `IncrementProposerPriority(1)` (C08)
-      match applyBlock env (fun v => hint.getD v) st b bid (ch = "1")
-          (if nvs = "err" then none else some st.nextVals) pu res apph with
+          (kv t "valupd").bind parseUpd, kv t "nvals", (kv t "pu").bind parsePU, (kv t "apph").bind ofHex with
+    | some st, some b, some bid, some res, some upd, some nvs, some pu, some apph =>
+      let env := envOf s t st b.lastCommit
+      -- validator updates go through C08's model; the set the real code computed (`nvals=`) is only
+      -- cross-checked
+      match applyBlockV env (fun pk => (Hs pk).take 20) st b bid upd pu res apph with
       | .error (.invalid e) => (s, "err-invalid:" ++ showErr e)
       | .error (.upd .valset) => (s, "err-valset")
       | .error (.upd .params) => (s, "err-params")
-      | .ok st' => ({ st := some st', blk := none }, "ok det=same " ++ showState st')
+      | .ok st' =>
+        let xck := match parseVals nvs with
+          | some hv => if hv = st'.nextVals then "ok" else "DIFF"
+          | none => "ok"
+        -- the stores now hold block h, then `evpool.Update(state, block evidence)`
+        let rh := b.header.height - s.ih + 1
+        let s1 := { s with blocks := s.blocks ++ [{ time := b.header.time, vals := st.vals.map toC11Val }] }
+        let pe := poolEnv s1
+        let g := Evidence.step pe.ctx pe.sys (.grow rh)
+        let u := Evidence.step pe.ctx g.1 (.update rh (b.evidence.map (decodeOf s1)))
+        ({ s1 with st := some st', blk := none, sys := some u.1 },
+          "ok det=same " ++ showState st' ++ " xck=" ++ xck)
     | _, _, _, _, _, _, _, _ => (s, "bad-op")
   | _ => (s, "bad-op")
 
